@@ -18,7 +18,7 @@ def adjacency(spec, weight=None):
     for i, j, a in spec["edges"]:
         w = 1.0 if weight is None else a[weight]
         adj[i].append((j, w))
-        if not spec["directed"]:
+        if not spec["directed"] and i != j:     # a self-loop is one neighbour entry
             adj[j].append((i, w))
     return adj
 
